@@ -291,44 +291,67 @@ func sortedProvenance(c *core.Ctx, v ssa.Value, sorter *ssa.Function) bool {
 }
 
 func c12R5(c *core.Ctx, r *core.Report, ro *core.Roles, sorter *ssa.Function) {
-	// (a) direct invoke loops: runners and loaders
-	type part struct {
+	// (a) runners and loaders: the decision tables of the start routine (C13) and of Configure.Initialize (C15),
+	// whose ordering helper oracle returns a reversed list of fresh tokens
+	for _, p := range []struct {
 		name string
 		m    *types.Func
-	}
-	for _, p := range []part{{"ApplicationRunner.Run", ro.RunnerRun}, {"Loader.LoadConfig", ro.LoaderLoad}} {
-		var sites []ssa.CallInstruction
-		for _, fn := range c.Scope {
-			sites = append(sites, core.CallsMatching(fn, func(com *ssa.CallCommon) bool { return core.IsInvoke(com, p.m) })...)
-		}
-		if !r.Floor("C12.R5", "invoke sites of "+p.name, len(sites), 1) {
-			continue
-		}
+	}{{"ApplicationRunner.Run", ro.RunnerRun}, {"Loader.LoadConfig", ro.LoaderLoad}} {
+		sites := c.CallSites(func(com *ssa.CallCommon) bool { return core.IsInvoke(com, p.m) })
+		r.Floor("C12.R5", "invoke sites of "+p.name, len(sites), 1)
 		for _, s := range sites {
-			fn := s.Parent()
-			cons := p.name + "@" + core.FnName(fn)
-			call, isCall := s.(*ssa.Call)
-			if !isCall {
-				r.Fail("C12.R5", cons, c.Pos(s.Pos()), "participant is invoked by go/defer, not synchronously")
-				continue
+			if _, isCall := s.(*ssa.Call); !isCall {
+				r.Fail("C12.R5", p.name+"@"+core.FnName(s.Parent()), c.Pos(s.Pos()), "participant is invoked by go/defer, not synchronously")
 			}
-			rl := core.RangeLoopOf(fn, s.Block())
-			if rl == nil {
-				r.Fail("C12.R5", cons, c.Pos(s.Pos()), "participant invoke is not inside a forward range over a slice")
-				continue
-			}
-			recv := core.Norm(call.Common().Value)
-			if !rl.ElemOf(recv) {
-				r.Fail("C12.R5", cons, c.Pos(s.Pos()), "invoked participant is not the current element of the ranged slice")
-				continue
-			}
-			if !sortedProvenance(c, rl.Slice, sorter) {
-				r.Fail("C12.R5", cons, c.Pos(s.Pos()), "the ranged slice does not come from SortOrderedComponents (directly or through a field stored from it just before)")
-				continue
-			}
-			r.Hold("C12.R5", cons, c.Pos(s.Pos()), "synchronous invoke of the current element of a forward range over a sorter result")
 		}
 	}
+	maxLen := 2
+	if r.Tier == "thorough" {
+		maxLen = 3
+	}
+	subjects := lowestReaching(c, "app",
+		func(com *ssa.CallCommon) bool { return core.IsInvoke(com, ro.FRefresh) },
+		func(com *ssa.CallCommon) bool { return core.IsInvoke(com, ro.RunnerRun) })
+	ar, appT := c.Named("definition", "ApplicationRunner"), c.Named("app", "App")
+	if r.Exactly("C12.R5", "start routines (smallest function of package app reaching Factory.Refresh and ApplicationRunner.Run)", len(subjects), 1) && ar != nil && appT != nil {
+		runFn := subjects[0]
+		cons := "run-table@" + core.FnName(runFn)
+		if field := sliceFieldOf(appT, ar); field == "" || len(runFn.Params) != 1 {
+			r.Undecided("C12.R5", cons, c.FnPos(runFn), "App has no []ApplicationRunner field, or the start routine takes parameters")
+		} else if rrs, _, und := appRunTable(c, runFn, field, maxLen); und != "" {
+			r.Undecided("C12.R5", cons, c.FnPos(runFn), "abstract interpretation left the model: "+und)
+		} else {
+			rrs.report(c, r, runFn, func(row string) string {
+				if row == "runners" {
+					return "C12.R5"
+				}
+				return ""
+			}, cons, map[string]string{"runners": runRows["runners"]})
+		}
+	}
+	nCfg := 0
+	if ld := c.Named("configure", "Loader"); ld != nil {
+		for _, T := range c.Implementors(c.Iface("configure", "Configure")) {
+			initFn := c.DeclaredMethod(T, "Initialize")
+			field := sliceFieldOf(T, ld)
+			if initFn == nil || field == "" {
+				continue
+			}
+			nCfg++
+			cons := "load-table@" + core.FnName(initFn)
+			if lrs, _, und := loadTable(c, initFn, field, maxLen); und != "" {
+				r.Undecided("C12.R5", cons, c.FnPos(initFn), "abstract interpretation left the model: "+und)
+			} else {
+				lrs.report(c, r, initFn, func(row string) string {
+					if row == "order" {
+						return "C12.R5"
+					}
+					return ""
+				}, cons, map[string]string{"order": loadRows["order"]})
+			}
+		}
+	}
+	r.Floor("C12.R5", "Configure implementations with a loader list and Initialize", nCfg, 1)
 
 	// (b) post-processors: the list field that the invoke loops range over
 	family := []*types.Func{ro.CPBeforeInit, ro.CPAfterInit, ro.IABeforeInst, ro.IAAfterInst, ro.IAProps, ro.SmartEarlyRef}
@@ -397,65 +420,53 @@ func c12R5(c *core.Ctx, r *core.Report, ro *core.Roles, sorter *ssa.Function) {
 	}
 	r.Count("processor_invoke_loops", nLoops)
 	r.Floor("C12.R5", "post-processor invoke loops", nLoops, 5)
-	// every such field: single writer discipline
+	// the dispatch list: filled by the bootstrap routine only, decided by its decision table
+	bs, why := findBootstrap(c)
+	if bs == nil {
+		r.Undecided("C12.R5", "bootstrap", "", why)
+		return
+	}
 	for fr := range fields {
-		stores, _ := c.FieldAccesses(fr.Owner, fr.Name)
-		cons := "writers:" + fr.Owner.Obj().Name() + "." + fr.Name
-		if len(stores) == 0 {
-			r.Undecided("C12.R5", cons, "", "processor list field has no writer in scope")
+		r.Check(fr.Owner == bs.recv && fr.Name == bs.dispatch, "C12.R5", "dispatch-list:"+fr.Owner.Obj().Name()+"."+fr.Name, c.FnPos(bs.fn),
+			"every dispatch loop ranges over the one list the bootstrap routine fills in contract order ("+bs.recv.Obj().Name()+"."+bs.dispatch+")")
+	}
+	helpers := map[*ssa.Function]bool{}
+	reachesCall(bs.fn, func(*ssa.CallCommon) bool { return false }, helpers)
+	stores, _ := c.FieldAccesses(bs.recv, bs.dispatch)
+	for _, st := range stores {
+		if core.IsNilConst(st.Store.Val) {
 			continue
 		}
-		for _, st := range stores {
-			pos := c.Pos(st.Instr.Pos())
-			if core.IsNilConst(st.Store.Val) {
-				continue // reset
-			}
-			call, ok := st.Store.Val.(*ssa.Call)
-			bi, isB := (ssa.Value)(nil), false
-			if ok {
-				_, isB = call.Common().Value.(*ssa.Builtin)
-				bi = call.Common().Value
-			}
-			if !ok || !isB || bi.Name() != "append" {
-				r.Fail("C12.R5", cons, pos, "processor list is assigned something other than append(list, one element)")
-				continue
-			}
-			// append(<load same field>, <varargs of exactly one element>)
-			base := core.Norm(call.Common().Args[0])
-			if bfa, ok := core.IsFieldLoad(base, fr.Owner, fr.Name); !ok || !core.Equiv(bfa.X, st.Addr.X) {
-				r.Fail("C12.R5", cons, pos, "processor list append does not extend the list itself")
-				continue
-			}
-			rl := core.RangeLoopOf(st.Fn, st.Instr.Block())
-			if rl == nil || !sortedProvenance(c, rl.Slice, sorter) {
-				r.Fail("C12.R5", cons, pos, "processor list is not filled inside a forward range over the sorted registration list")
-				continue
-			}
-			if inner := core.InnermostLoop(st.Fn, st.Instr.Block()); inner != rl.Loop && inner != nil && len(inner.Blocks) < len(rl.Loop.Blocks) {
-				r.Fail("C12.R5", cons, pos, "processor list append sits in a nested loop")
-				continue
-			}
-			// the appended element derives from the current element (or the instance created for it)
-			okElem := true
-			for _, o := range core.Origins(call.Common().Args[1], func(v ssa.Value) bool { return rl.ElemOf(v) }) {
-				if rl.ElemOf(o) {
-					continue
-				}
-				if ex, isEx := o.(*ssa.Extract); isEx {
-					if ta, isTA := ex.Tuple.(*ssa.TypeAssert); isTA {
-						_ = ta
-						continue // the created instance of the same processor, type-asserted
-					}
-				}
-				okElem = false
-			}
-			if !okElem {
-				r.Fail("C12.R5", cons, pos, "appended processor does not derive from the current element of the sorted list")
-				continue
-			}
-			r.Hold("C12.R5", cons, pos, "list is extended by one element per iteration of a forward range over the sorted registration list")
-		}
+		r.Check(helpers[st.Fn] || helpers[core.TopLevel(st.Fn)], "C12.R5", "writers:"+bs.recv.Obj().Name()+"."+bs.dispatch+"@"+core.FnName(st.Fn), c.Pos(st.Instr.Pos()),
+			"the dispatch list is written only by the bootstrap routine and its helpers")
 	}
+	bsTable(c, r, bs, "C12.R5", map[string]bool{"chain-order": true, "managed": true})
+}
+
+// bsTable runs the bootstrap decision table and reports the selected rows under rule.
+func bsTable(c *core.Ctx, r *core.Report, bs *bootstrapSubject, rule string, rowsWanted map[string]bool) {
+	maxLen := 2
+	if r.Tier == "thorough" {
+		maxLen = 3
+	}
+	cons := "bootstrap-table@" + core.FnName(bs.fn)
+	brs, n, und := bootstrapTable(c, bs, maxLen)
+	r.Count("bootstrap_table_runs", n)
+	if und != "" {
+		r.Undecided(rule, cons, c.FnPos(bs.fn), "abstract interpretation left the model: "+und)
+		return
+	}
+	smallModelCheck(c, r, rule, cons, bs.fn, int64(maxLen))
+	need := map[string]string{}
+	for k := range rowsWanted {
+		need[k] = bootstrapRows[k]
+	}
+	brs.report(c, r, bs.fn, func(row string) string {
+		if rowsWanted[row] {
+			return rule
+		}
+		return ""
+	}, cons, need)
 }
 
 // sorterTableFor interprets one sorter instance on every abstract list up to maxLen and reports rows under rule ids
